@@ -113,6 +113,30 @@ def run (lk : Bool) (who : Nat → Caller) (creatable : Nat → Bool) (s : St) :
   | [] => s
   | i :: is => run lk who creatable (step lk who creatable s i) is
 
+/-! ### reconnects
+
+The link may drop and come back (`connection_lost` → `connection_established`, as
+`Connection._reconnect` does) at any moment of the timeline, also while a class loading is in
+flight.  In the code as it is the lock, the device map and the in-flight loads SURVIVE a
+reconnect (consumers are topped up, a new producer is started, the devices are told
+`connected`; nothing else changes): the event does not touch the machine's state.
+`reset = true` is a variant in which every connection starts with a fresh lock object (the
+holder of the old one goes on, the new one is free) — kept to show the model tells the
+difference. -/
+
+inductive Mv
+  | move (i : Nat)     -- caller i makes its next move
+  | reconnect          -- connection lost and re-established
+deriving Repr, DecidableEq
+
+def stepMv (lk reset : Bool) (who : Nat → Caller) (creatable : Nat → Bool) (s : St) : Mv → St
+  | .move i => step lk who creatable s i
+  | .reconnect => if reset then { s with lock := none } else s
+
+def runMv (lk reset : Bool) (who : Nat → Caller) (creatable : Nat → Bool) (s : St) : List Mv → St
+  | [] => s
+  | m :: ms => runMv lk reset who creatable (stepMv lk reset who creatable s m) ms
+
 /-! ### replay of a harness schedule (external events, each followed by quiescence) -/
 
 /-- external events of the harness: `feed a m` = m more frames from address `a` arrive,
@@ -122,6 +146,7 @@ inductive Ev
   | feed (a m : Nat)
   | release
   | get (a : Nat)
+  | reconnect          -- the connection is lost and re-established at once (frames arrive on the new one from then on)
 deriving Repr, DecidableEq
 
 /-- addresses of the frames / of the get() calls an event list brings, in order -/
@@ -179,6 +204,7 @@ def applyEv (lk : Bool) (who : Nat → Caller) (cr : Nat → Bool) (r : Replay) 
     match (callers r).find? (fun j => isCreating (r.st.pc j)) with
     | some j => settle lk who cr settleFuel { r with st := step lk who cr r.st j, sched := j :: r.sched }
     | none => none        -- nothing to release: the schedule is not accepted
+  | .reconnect => settle lk who cr settleFuel r   -- nothing changes (the event loop runs on)
 
 def getRes : PC → Option Nat
   | .got d => some d
